@@ -17,7 +17,8 @@ Everything is stated for `ℝ≥0∞`-valued functions and `∫⁻`, for every m
 * `cond_lintegral_eq_one` — the quotient is a probability density where the marginal is in `(0, ⊤)`;
 * `gibbs_two_stage_real` — real-valued densities: the joint `jt ≥ 0` is, in each coordinate, *some*
   constant multiple of a probability density `p1 x ·` / `p2 y ·`, and its Bochner `y`-integral is
-  `tg x`; then the kernel "draw `y ~ p1 x`, then `x' ~ p2 y`" leaves the measure with density `tg`
+  `tg x` (`factor_of_real`, `quotient_eq_of_factor`, `ofReal_integral_of_factor`: the `ℝ≥0∞` marginal
+  is `|Z|`, the quotient `jt / marginal` is `p`); then the kernel "draw `y ~ p1 x`, then `x' ~ p2 y`" leaves the measure with density `tg`
   invariant.  This is the form consumed by `Props/C13.lean`.
 -/
 open MeasureTheory Function
@@ -143,6 +144,21 @@ theorem factor_of_real {A : Type*} [MeasurableSpace A] (ρ : Measure A) (k p : A
     rw [← abs_of_nonneg h1, h3, abs_mul, abs_of_nonneg h2]
   refine ⟨?_, h⟩
   rw [lintegral_congr_ae h, lintegral_const_mul' _ _ ENNReal.ofReal_ne_top, hp1, mul_one]
+
+/-- under the hypotheses of `factor_of_real`, at a point `a₀` where the factorisation holds and the
+function is positive, the quotient by the total mass is the probability density `p` -/
+theorem quotient_eq_of_factor {A : Type*} [MeasurableSpace A] (ρ : Measure A) (k p : A → ℝ)
+    (hk0 : ∀ᵐ a ∂ρ, 0 ≤ k a) (hp0 : ∀ᵐ a ∂ρ, 0 ≤ p a)
+    (hp1 : ∫⁻ a, ENNReal.ofReal (p a) ∂ρ = 1) (Z : ℝ) (hZ : ∀ᵐ a ∂ρ, k a = Z * p a)
+    (a₀ : A) (h₀ : k a₀ = Z * p a₀) (hk : 0 < k a₀) (hp : 0 ≤ p a₀) :
+    ENNReal.ofReal (k a₀) / ∫⁻ a, ENNReal.ofReal (k a) ∂ρ = ENNReal.ofReal (p a₀) := by
+  have hZpos : 0 < Z := by
+    by_contra h
+    have : Z * p a₀ ≤ 0 := mul_nonpos_of_nonpos_of_nonneg (not_lt.mp h) hp
+    linarith
+  rw [(factor_of_real ρ k p hk0 hp0 hp1 Z hZ).1, abs_of_pos hZpos, h₀, ENNReal.ofReal_mul hZpos.le]
+  rw [mul_comm]
+  exact ENNReal.mul_div_cancel_right (by simpa using hZpos) ENNReal.ofReal_ne_top
 
 /-- under the hypotheses of `factor_of_real` the function is integrable and `ofReal` commutes
 with its integral -/
